@@ -68,7 +68,7 @@ def rand_soft(rng, seq, role="constraint", allow=None):
     if k == "user":
         return dict(kind="user", motif=rng.choice(["AA", "GC", "TAT", "CG"]), shrink=rng.choice([0, 0, 1, 2]),
                     location=None if whole else rand_loc(rng, n, 3, strands=(0,)),
-                    heuristic=rng.choice([None, None, "lying", "fail"]), localized_none=rng.random() < 0.15,
+                    heuristic=rng.choice([None, None, "lying", "fail", "paste"]), localized_none=rng.random() < 0.15,
                     priority=rng.choice([0, 0, 2, -2]), no_rh=rng.random() < 0.3)
     raise ValueError(k)
 
@@ -157,11 +157,18 @@ def make_user_class():
             # "solves" by moving to a random point of the local space, whatever the constraints say
             problem.sequence = problem.mutation_space.apply_random_mutations(2, problem.sequence)
 
+    class UserSpecPasting(UserSpec):
+        def resolution_heuristic(self, problem):
+            # "solves" its own breach by overwriting its whole location, ignoring the mutation space
+            a, b = self.location.start, self.location.end
+            filler = "".join("C" if self.motif[0] != "C" else "T" for _ in range(b - a))
+            problem.sequence = problem.sequence[:a] + filler + problem.sequence[b:]
+
     class UserSpecFailing(UserSpec):
         def resolution_heuristic(self, problem):
             raise NoSolutionError("user heuristic gives up", problem=problem)
 
-    return dict(plain=UserSpec, no_rh=UserSpecNoRh, lying=UserSpecLying, fail=UserSpecFailing)
+    return dict(plain=UserSpec, no_rh=UserSpecNoRh, lying=UserSpecLying, fail=UserSpecFailing, paste=UserSpecPasting)
 
 
 _USER = None
@@ -218,6 +225,8 @@ def build_spec(d):
             c = cls["lying"]
         elif d.get("heuristic") == "fail":
             c = cls["fail"]
+        elif d.get("heuristic") == "paste":
+            c = cls["paste"]
         elif d.get("no_rh"):
             c = cls["no_rh"]
         return c(d["motif"], location=loc, shrink=d.get("shrink", 0), localized_none=d.get("localized_none", False),
